@@ -10,9 +10,10 @@ Oracle: set-theoretic definitions.
 import itertools
 import numpy as np
 
-from ..engine.explore import Outcome, Refill
+from ..engine.explore import Outcome, Refill, Holder
 
 _refill = Refill()
+_holder = Holder()
 from ..engine import enum
 
 PID = 'C16'
@@ -170,6 +171,8 @@ def check_case(case):
         nonlocal trans
         try:
             r = f(*a)
+            for m_ in _holder.swap(r, '%s %s' % (name, d)):
+                viols.append(('earlier-result-changed', m_))
             trans += 1
             return True, r
         except Exception as e:
